@@ -331,3 +331,10 @@ Example pending_class_def_survives :
             (exists c0, map snd (eval_mech [SnThrow WClassDef None; SnTryFin]) = [c0; c] /\ c_classdef c = true).
 Proof. eexists; right; eexists; vm_compute; repeat split. Qed.
 
+
+Print Assumptions stale_state_harmless.
+Print Assumptions execute_starts_fresh.
+Print Assumptions snippet_runs_from_execute_start.
+Print Assumptions reset_is_fresh.
+Print Assumptions reset_is_fresh_history.
+Print Assumptions run_leaves_clean.
